@@ -1,6 +1,7 @@
 #include "wa-app.h"
 
 #include <stdio.h>
+#include <stdlib.h>
 
 // 配置初始内存
 static uint8_t app_host_memory[{{.MemoryBytes}}];
@@ -51,6 +52,15 @@ extern "C" void app_syscall_js_print_f64(double i) {
 
 extern "C" void app_syscall_js_print_rune(int32_t i) {
     printf("%c", i);
+}
+
+extern "C" void app_syscall_js_print_position(int32_t pos) {
+    printf("pos:%d", pos);
+}
+
+extern "C" void app_syscall_js_proc_exit(int32_t code) {
+    fflush(stdout);
+    exit(code);
 }
 
 extern "C" void app_syscall_js_print_str(int32_t ptr, int32_t len) {
